@@ -23,6 +23,18 @@ CLAIMED = {
         text=("Kernel-checked theorems for every element type, data list, RNG state and fuel, about the model of resample.rs on top of an exact model of the alea wyrand generator (validated bit for bit, including the generator state after each call): bootstrap returns exactly the requested number of resamples, each of the original length, every element equal to data[i] for a drawn index i < n; jackknife = [d.eraseIdx i | i < n] in order; shuffle returns a permutation of its input; shuffle_two returns a permutation of the zipped input (one common permutation) and rejects unequal lengths; all four return on length-1 input; on non-empty input the only way not to return is Lemire's rejection loop running out of fuel (no index panic); generator range lemmas (f64 in [0,1), u64_less_than < m, i64_in_range in [a,b]); equal likelihood as a counting statement: for each v < m exactly floor(2^64/m) raw 64-bit words are accepted with output v. Not proved: termination of the rejection loop for every state and the statistical quality of wyrand (searched with the DKW band, alpha = 1e-12, on bootstrap index frequencies). Tied bit for bit (lengths 1..2000, 1..200 resamples, 100 / 1e4 seeds, special values); exact multiset/pairing oracle."),
         design='DESIGN.md §6 C19',
         technique='Lean 4 proof (List.Perm invariants over swap sequences, Lemire counting argument on Nat) + bit-exact correspondence incl. RNG state'),
+    "C02": dict(
+        text=("Kernel-checked theorems over R about the model of pdf/pmf, ln_pdf, cdf, mean and var of the 13 univariate laws and the multivariate normal, with the special functions as explicit parameters (hypotheses such as exp(lnGamma z) = Gamma z are stated and shown satisfiable): Normal, Gamma, Exponential, ChiSquared (= Gamma(k/2, 1/2)), Beta and Pareto densities equal Mathlib's gaussianPDFReal / gammaPDFReal / exponentialPDFReal / betaPDFReal / paretoPDFReal, whence non-negativity and total mass 1 are transferred; Poisson pmf = e^-l l^k / k! and sums to 1; Binomial pmf = C(n,k) p^k (1-p)^(n-k), 0 for negative and too-large counts, sums to 1 (binomial theorem); Bernoulli and DiscreteUniform: mass 1, first moment = mean(), second central moment = var() by exact finite sums; Uniform, Gumbel (density = derivative of its CDF), T via short specs; every density/mass is 0 outside the support (no panic outcome) and non-negative; the mean/var accessors equal the textbook formulas for all laws (with the infinite/undefined regimes of T and Pareto); Normal ln_pdf = log o pdf and the cdf formula; MVN pdf in terms of the cached inverse and determinant. PARTIAL: accuracy of Lanczos/erf (C09), moments as integrals for most continuous laws, cdf as the integral of the density, and that the MVN cache is the true inverse/determinant (C01/C11) are not proved; decided by the bit-exact tie (60k values quick) plus mpmath/scipy closed forms at every point and total mass / moments recomputed from the implementation's own values by quadrature or exact sums."),
+        design='DESIGN.md §6 C02',
+        technique="Lean 4 proof (identification with Mathlib's probability densities, finite-sum algebra) + bit-exact correspondence + mpmath/quadrature search"),
+    "C18": dict(
+        text=("Kernel-checked theorems over any linearly ordered field, for all 13 univariate distributions modelled as records with their cached sub-samplers and with new / every setter / update transcribed as the exact sequence of assignments (so a panic in mid-update leaves the partial state the code leaves): a constructor succeeds exactly on the documented domain; a setter accepts iff the constructor would accept the resulting parameters, and then yields exactly the fresh object, otherwise panics leaving the object untouched; update succeeds from every reachable state iff the constructor accepts the values (in particular bounds entirely above or below the old interval) and yields the fresh object; by induction over arbitrary histories (valid and invalid values interleaved) every reachable object has in-domain parameters, every cached sub-sampler equals the one a fresh constructor would build, and the whole record equals new(current params) - hence density, mean, variance and the sample stream from any RNG state coincide with the twin's. The tie compares, after every step of generated histories (13 kinds x 100/400 seeds, 1..20 mutations), the panic flag, the whole record, pdf/mean/var at probes and 32 seeded draws against the Lean model token for token, and the oracle demands equality with a freshly constructed Rust twin, also with unrelated objects created and sampled in between. NaN parameters are out of scope (stated)."),
+        design='DESIGN.md §6 C18',
+        technique='Lean 4 proof (invariant `fresh d = some d` by induction over operation histories, 13 record state machines) + bit-exact stateful correspondence + twin-object oracle'),
+    "C20": dict(
+        text=('Kernel-checked theorems over R for valid parameters: the scalar RBF and rational-quadratic kernels are symmetric, equal the output variance at zero distance, are positive, never exceed the variance and are non-increasing in the distance; constructors accept exactly positive parameters; the matrix form (all four argument kinds, any r x c layout) has one row per first-argument point and one column per second-argument point and its (i,j) entry is the scalar form at (x_i, y_j) - for every scalar type in which powi a 2 = a*a, so also at Float where the oracle checks it bit for bit; Gram matrices are symmetric with diagonal = variance; and every Gram matrix is positive semi-definite (Mathlib Matrix.PosSemidef): RBF through the power-series feature map of exp(xy/l^2), rational quadratic as a Gamma scale mixture of RBF kernels. Not proved: rounding of the scalar form and PSD of the rounded Gram matrix (searched: eigenvalue bound with exact LDL^T certificate for small n). Tied bit for bit to the Rust code (scalar pairs in +-1e3, 1..60 points as Vector or Matrix, owned or borrowed, parameters in (1e-2, 1e2)).'),
+        design='DESIGN.md §6 C20',
+        technique='Lean 4 proof (real analysis for monotonicity, power-series / Gamma-mixture PSD argument, table lemmas over the C04/C12/C15 models) + bit-exact correspondence'),
     "C01": dict(
         text=("Kernel-checked theorems about the executable model of solve / solve_sys / invert_matrix / Matrix::solve / Matrix::inv: the layout conversions are transposes and mutually inverse; column c of a multi-RHS solve equals the single-RHS solve of column c with one route chosen for all columns; inverse = solve against the identity; Matrix::solve never routes (always LU); the slice solvers take the Cholesky route iff the matrix is exactly symmetric, passes the (ordered-field characterised) positive-diagonal/symmetry predicate and every pivot is positive, otherwise LU; forward and backward substitution return x with T.x = b over any field reading only the relevant triangle. PARTIAL: P.A = L.U, L.L^T = A, luSolve's spec and the floating-point residual bound are not proved; they are decided per run by the bit-exact tie on all six entry points (orders 1..32, all matrix classes of the quantifier, 1..6 right-hand sides) plus an exact big-integer residual oracle ||A X - B|| <= 200 n eps (||A|| ||X|| + ||B||), A.A^-1 = I, and route/entry-point agreement scaled by the condition number."),
         design='DESIGN.md §6 C01',
